@@ -49,6 +49,14 @@ func (c *c08ChainCons) Save(tx consensus.TxWriter) error {
 	c.calls = append(c.calls, 4)
 	return nil
 }
+func (c *c08ChainCons) VerifySign(b *types.Block) error {
+	c.calls = append(c.calls, 5, c.id(b))
+	return nil
+}
+func (c *c08ChainCons) IsBlockValid(b *types.Block, best *types.Block) error {
+	c.calls = append(c.calls, 6, c.id(b), c.id(best))
+	return nil
+}
 
 type c08ChainObs struct {
 	Calls []int64 `json:"calls"`
@@ -106,6 +114,15 @@ func TestVerifC08ChainEngine(t *testing.T) {
 				ts++
 				bi := types.NewBlockHeaderInfoFromPrevBlock(prev, ts, testBV)
 				b := types.NewBlock(bi, prev.GetHeader().GetBlocksRootHash(), nil, nil, nil, nil)
+				b.BlockHash()
+				blocks[geti(1)] = b
+				cons.idOf[b.ID()] = geti(1)
+			case "BX":
+				// a block whose state root does not match its execution: rejected when executed
+				prev := blocks[geti(2)]
+				ts++
+				bi := types.NewBlockHeaderInfoFromPrevBlock(prev, ts, testBV)
+				b := types.NewBlock(bi, []byte("bad-state-root-bad-state-root-xx"), nil, nil, nil, nil)
 				b.BlockHash()
 				blocks[geti(1)] = b
 				cons.idOf[b.ID()] = geti(1)
